@@ -197,11 +197,41 @@ func C17(ctx *core.Ctx) {
 		c, ok := CallValue(v)
 		return ok && c.Static != nil && c.Static == gen
 	}
+	type site interface {
+		ssa.Value
+		ssa.Instruction
+	}
+	// unexported helper constructors hand the obligation to their callers
+	deferred := map[*ssa.Function]bool{}
 	for _, fn := range r.Fns {
 		ssax.Instrs(fn, func(in ssa.Instruction) {
-			al, ok := in.(*ssa.Alloc)
-			if !ok || !ssax.TypeNamed(al.Type(), "", "FContextImpl") {
+			var al site
+			if a, ok := in.(*ssa.Alloc); ok && ssax.TypeNamed(a.Type(), "", "FContextImpl") {
+				al = a
+			}
+			if c, ok := in.(*ssa.Call); ok && ssax.TypeNamed(c.Type(), "", "FContextImpl") {
+				if f := c.Call.StaticCallee(); f != nil && allocatorFns[f] && !token.IsExported(f.Name()) && f.Signature.Recv() == nil {
+					al = c
+					deferred[f] = true
+				}
+			}
+			if al == nil {
 				return
+			}
+			if allocatorFns[fn] && !token.IsExported(fn.Name()) && fn.Signature.Recv() == nil {
+				// the helper's own allocation: decided at its call sites (there must be some)
+				nCalls := 0
+				for _, g := range r.Fns {
+					for _, c := range ssax.Calls(g) {
+						if c.Static == fn {
+							nCalls++
+						}
+					}
+				}
+				if nCalls > 0 {
+					ctx.Discharge("C17.R4", ssax.Name(fn)+" › helper constructor: op id decided at its call sites", r.IPos(al), sprintf("%d call site(s)", nCalls))
+					return
+				}
 			}
 			fname := ssax.Name(fn)
 			// maps that are (going to be) the requestHeaders of this object
